@@ -2,7 +2,7 @@
 EXTENDS DSFDControl, Json
 VARIABLE hist
 gvars == <<vars, hist>>
-GEN_Cfgs == [S : 1..3, avg : BOOLEAN, R : {0, 4, 6}]
+GEN_Cfgs == [S : 1..3, avg : BOOLEAN, R : {0, 3, 4, 6}]
 GInit == Init /\ hist = <<>>
 \* sets are exported as sorted sequences by ToJson
 GNext == Update /\ hist' = Append(hist, [ca |-> count', changed |-> sketch' # sketch, sketch |-> sketch', factor |-> factor'])
